@@ -128,6 +128,36 @@ def mirror_both_glide(prob, a, b):
             and abs(sum(b["hu"].values()) - sum(a["cu"].values())) <= lim and abs(sum(b["cu"].values()) - sum(a["hu"].values())) <= lim)
 
 
+def _straddling_hot_utility(problem):
+    """A hot-typed user utility with a glide whose supply end reaches the hottest shifted cold-stream temperature while its target
+    end lies STRICTLY below it (equality is accepted by the code's >= test and is not part of the finding)."""
+    tops = [max(s["t_supply"], s["t_target"]) + s["dt_cont"] for s in problem["streams"] if s["t_supply"] <= s["t_target"]]
+    if not tops:
+        return False
+    lim = max(tops)
+    for u in problem["utilities"]:
+        if u["type"] in ("Hot", "Both"):
+            # an isothermal utility is given the artificial 0.1 K glide (target = supply - DT_PHASE_CHANGE for a hot one)
+            g = 0.1 if u["t_supply"] == u["t_target"] else 0.0
+            lo, hi = min(u["t_supply"], u["t_target"]) - g - u["dt_cont"], max(u["t_supply"], u["t_target"]) - u["dt_cont"]
+            if lo < lim - 1e-9 and hi >= lim:
+                return True
+    return False
+
+
+def mirror_reach_asymmetry(prob, a, b, twin=None):
+    """Trigger of finding D55: in the original or in its mirror image a gliding hot-typed utility straddles the process extreme
+    (accepted by the cold-side supply-end test of the other description, rejected by the hot-side target-end test), the three
+    targets do follow the mirror relation, and a default utility carries duty in exactly one of the two descriptions."""
+    if not (_straddling_hot_utility(prob) or (twin is not None and _straddling_hot_utility(twin))):
+        return False
+    tol = 1e-6 * max(1.0, abs(a["Qh"]) + abs(a["Qc"]) + abs(a["Qr"]))
+    if not (abs(b["Qh"] - a["Qc"]) <= tol and abs(b["Qc"] - a["Qh"]) <= tol and abs(b["Qr"] - a["Qr"]) <= tol):
+        return False
+    d = lambda r, side, nm: r[side].get(nm, 0.0) > tol        # noqa: E731
+    return (d(a, "cu", "CU") != d(b, "hu", "HU")) or (d(a, "hu", "HU") != d(b, "cu", "CU"))
+
+
 def map_record_name(name, zmap):
     if not zmap:
         return name
@@ -146,7 +176,7 @@ def run(ctx):
                   utilities=[dict(name="TopU", type="Both", t_supply=285.0, t_target=285.0, heat_flow=0.0, dt_cont=10.0, htc=1.0, price=30.0),
                              dict(name="BotU", type="Cold", t_supply=162.5, t_target=162.5, heat_flow=0.0, dt_cont=5.0, htc=1.0, price=2.0)]), None)]
     for _ in range(n):
-        base.append(pc.gen_problem(ctx.rng, nzones=ctx.rng.choice([1, 1, 2, 3]), regime=ctx.rng.choice(["none", "iso", "multi", "glide", "steered"]), nmax=5))
+        base.append(pc.gen_problem(ctx.rng, nzones=ctx.rng.choice([1, 1, 2, 3]), regime=ctx.rng.choice(["none", "iso", "multi", "glide", "steered", "limit", "limit"]), nmax=5))
     for prob, m in base:
         try:
             ra = records(prob)
@@ -173,10 +203,14 @@ def run(ctx):
                 b = rb[nb]
                 if mode == 3:
                     # mirrored: user utilities keep their names but change side; generated defaults are matched by side totals
-                    hu_a, cu_a = sorted(a["hu"]), sorted(a["cu"])
-                    A = dict(a, hu={"s": sum(a["hu"].values())}, cu={"s": sum(a["cu"].values())})
-                    B = dict(b, hu={"s": sum(b["hu"].values())}, cu={"s": sum(b["cu"].values())})
-                    cf.add(f"c12_b 3 1 0 {trec(A, ['s'], ['s'])} {trec(B, ['s'], ['s'])}")
+                    # mirrored: user utilities keep their names but change side; the generated defaults HU <-> CU swap names too.
+                    # Compare utility by utility: a.hu[n] with b.cu[mirror(n)], a.cu[n] with b.hu[mirror(n)].
+                    mir = lambda n: {"HU": "CU", "CU": "HU"}.get(n, n)          # noqa: E731
+                    hn = sorted(set(a["hu"]) | {mir(n) for n in b["cu"]})
+                    cn = sorted(set(a["cu"]) | {mir(n) for n in b["hu"]})
+                    B = dict(b, hu={mir(n): v_ for n, v_ in b["hu"].items()}, cu={mir(n): v_ for n, v_ in b["cu"].items()})
+                    # c12_b mode 3 relates b.hu to a.cu and b.cu to a.hu position by position
+                    cf.add(f"c12_b 3 1 0 {trec(a, hn, cn)} {trec(B, cn, hn)}")
                 else:
                     hn = sorted(set(a["hu"]) | set(b["hu"]))
                     cn = sorted(set(a["cu"]) | set(b["cu"]))
@@ -192,6 +226,11 @@ def run(ctx):
         ctx.sample(dict(transformation=tname, record=name, original=(a["Qh"], a["Qc"], a["Qr"]), twin=(b["Qh"], b["Qc"], b["Qr"])), limit=7)
         if v[0] == 0:
             agree += 1
+            continue
+        if tname == "mirror" and mirror_reach_asymmetry(prob, a, b, q):
+            ctx.fail("mirror-reach-criterion-asymmetry", f"mirror: record {name}: a gliding utility is accepted as reaching on one side but replaced by "
+                     "a default utility on the mirrored side (hot test uses the target end, cold test the supply end)", suite="twins",
+                     input=dict(problem=prob, twin=q, transformation=tname, record=name), impl_output=dict(original=a, twin=b), predicate="c12_b")
             continue
         if tname == "mirror" and mirror_both_glide(prob, a, b):
             ctx.fail("mirror-both-isothermal-glide", f"mirror: pinch temperature of record {name} is off by the 0.1 K artificial glide of an "
